@@ -3,8 +3,10 @@
 usage: seed_prompt.py Cnn <tag>"""
 import json, sys
 pid, tag = sys.argv[1], sys.argv[2]
-hard = len(sys.argv) > 3 and sys.argv[3] in ("hard", "seq")
+hard = len(sys.argv) > 3 and sys.argv[3] in ("hard", "seq", "surface")
 seq = len(sys.argv) > 3 and sys.argv[3] == "seq"
+surface = len(sys.argv) > 3 and sys.argv[3] == "surface"
+benign = len(sys.argv) > 3 and sys.argv[3] == "benign"
 p = next(json.loads(l) for l in open('/verif/properties.jsonl') if json.loads(l)['id'] == pid)
 a = p['anchors']
 wt = f"/tmp/seed/{pid}-{tag}"
@@ -12,7 +14,35 @@ HARD = ("""Assume that ordinary randomised testing exists: someone runs the publ
 
 """ if hard else "") + ("""For this round, prefer the last two kinds: (1) TWO COOPERATING SITES — two small edits in different functions or files, each of which is harmless (and passes review) on its own, that only break the property together; and (2) STATE / SEQUENCE dependence — the result of a call depends on what was done before it on the same value or in the same process (a cache, a reused buffer, an iterator that is consumed, an accumulated table, mutation through a shared reference, order of insertion surviving into output), so that a single fresh call on fresh input is always right and only the second call, the re-used object, or the particular order goes wrong. At least one of your two changes must be of kind (1) or (2).
 
-""" if seq else "")
+""" if seq else "") + ("""For this round, first list for yourself every separate CLAUSE of the statement (each thing it promises) and every public ENTRY POINT, generic instantiation, option or configuration through which the promised behaviour can be reached (in-memory vs file vs directory variants, reader vs multi-reader, one remapper type vs another, a flag such as remap = true / false, N = 2 / 3 / 4 namespaces, a jar held in memory vs opened from a file, ...). Prefer changes of these kinds: (1) ONE VARIANT ONLY — the change breaks the property through one of several equivalent entry points / instantiations / options while the most commonly used one stays right; (2) THE LEAST TESTED CLAUSE — the change breaks the clause of the statement that a tester is least likely to have thought about, leaving the headline behaviour intact; (3) A SHARED HELPER FAR AWAY — the edit is in a helper or another crate of the workspace (string codec, name types, descriptor helpers, jar entry handling, ordering / hashing helpers) that the anchored code calls, and reaches the property only along one specific path; (4) ENVIRONMENT — the result depends on something outside the input value: directory listing order, files already present in an output directory, entry order / compression / metadata inside a zip, a file read in chunks, path shape. At least one of your two changes must be of kind (1) or (2).
+
+""" if surface else "")
+if benign:
+    print(f"""You are helping to evaluate a verification effort for the Rust workspace zeichenreihe/feather-build-rs (Java class-file reading/writing crates `duke`, `raw_class_file`; jar tooling `dukebox`, `dukenest`; Minecraft mapping-file tooling `quill`; a Maven resolver; a binary in src/). Independent checkers watch the semantic property below. A good checker raises NO alarm on code for which the property still holds. Your job: produce THREE independent, realistic code changes that each change OBSERVABLE behaviour of the code involved while the property, exactly as STATED, still holds for every input — the kind of legitimate refactoring, optimisation or behaviour change a maintainer makes all the time and that an over-strict checker would wrongly flag.
+
+PROPERTY {pid}: {p['title']}
+Statement: {p['statement']}
+Quantified over: {p['quantifier']['text']}
+Code involved: {'; '.join(a.get('files', []))}
+Mechanisms: {' | '.join(f"{m['name']} ({m['where']})" for m in a.get('mechanism', []))}
+
+Your scratch git worktree (create it yourself, work ONLY there, never touch /repo or /verif, never look into /verif):
+  git -C /repo worktree add --detach {wt} HEAD
+There is no network; build with `cargo ... --offline` inside the worktree (its own `target/` dir). Existing tests: `cd {wt} && cargo test --workspace --no-fail-fast --offline` (47 tests; the machine is shared, so use `-j 6`).
+
+Kinds of change to aim for (use three different ones): the output is laid out differently but denotes the same thing (another but still deterministic order where the statement does not fix one, another constant-pool order, another choice among equivalent encodings such as ldc_w where ldc would do or goto_w where goto fits, another attribute order, other padding-free formatting the format allows); error values and messages reworded, another error reported first when several apply, an error now returned earlier or later in the processing; internal data structures, caches, pre-allocation, iteration strategy or recursion replaced by something equivalent; stricter or more lenient treatment of inputs that are OUTSIDE the property's domain (malformed input where the property only speaks about well-formed input, or the reverse); extra work that does not show in the result; behaviour for aspects the statement explicitly leaves open. The change must alter something an outside observer CAN see (bytes, order, error text, timing of an error, allocation pattern) — not a pure rename of a local variable — but must keep every promise of the statement for every input in its domain. Be careful and honest: if on reflection a change does break the statement for some input, discard it and find another.
+
+Requirements for EACH of the three changes (A, B, C; small diffs, typically 1–25 changed lines, no test files touched):
+1. The workspace compiles and ALL existing tests pass with the change applied (run them; report the result line).
+2. A demonstration of the observable difference: a small self-contained Rust test (e.g. `tests/benign_demo_a.rs` in the relevant crate) that exercises the public API and PASSES on the unchanged code and FAILS with the change (because it pins the incidental behaviour that changed), kept separate from the change.
+3. A short argument, clause by clause, why the property as stated still holds with the change for every input in its domain.
+
+Deliver in `{wt}-out/A/`, `{wt}-out/B/`, `{wt}-out/C/` (plain directories outside the worktree):
+  patch.diff   — `git diff` of the change only (paths relative to the repository root; must apply to a clean checkout of /repo HEAD with `git apply`)
+  demo.diff    — patch adding the demonstration only; applies independently of patch.diff
+  README.md    — what the change does, what an observer sees differently, the clause-by-clause argument that the property still holds, how to run the demonstration and the outputs you observed with and without the change, and the result line of the existing test suite with the change
+When finished, remove the worktree and its build output: `git -C /repo worktree remove --force {wt}` (keep only `{wt}-out`). Final message: a three-line summary per change (what, what is observably different, why the property still holds).""")
+    sys.exit(0)
 print(f"""You are helping to evaluate a verification effort for the Rust workspace zeichenreihe/feather-build-rs (Java class-file reading/writing crates `duke`, `raw_class_file`; jar tooling `dukebox`, `dukenest`; Minecraft mapping-file tooling `quill`; a Maven resolver; a binary in src/). Your job: produce TWO independent, realistic code changes ("seeded defects") that each BREAK the semantic property below while the workspace still compiles and its existing test suite still passes. They are used to test whether independent checkers notice such breakage, so they must be the kind of regression a maintainer could plausibly introduce (a refactoring slip, a wrong boundary, a forgotten case, an 'optimisation'), not sabotage that any use would expose at once.
 
 PROPERTY {pid}: {p['title']}
